@@ -382,14 +382,15 @@ class DiagLayer:
         for service in candidate_services:
             try:
                 decoded_messages.append(service.decode_message(message))
-            except DecodeError as e:
-                # check if the message can be decoded as a global
-                # negative response for the service
-                gnr_found = False
+            except DecodeError:
+                # the service cannot interpret the message. check
+                # if the message can be decoded as a global negative
+                # response for the service. if this is not the case
+                # either, the service is simply not the one we are
+                # looking for...
                 for gnr in self.global_negative_responses:
                     try:
                         decoded_gnr = gnr.decode(message)
-                        gnr_found = True
                         if not isinstance(decoded_gnr, dict):
                             odxraise(
                                 f"Expected the decoded value of a global "
@@ -404,9 +405,6 @@ class DiagLayer:
                                 param_dict=decoded_gnr))
                     except DecodeError:
                         pass
-
-                if not gnr_found:
-                    raise e
 
         if len(decoded_messages) == 0:
             raise DecodeError(
